@@ -146,6 +146,20 @@ def dateOp : List String → String
     | _, _ => "BADLINE"
   | l => if l.contains "PANIC" then propfail "panic" else "BADLINE"
 
+/-- the field name of each text header (`text_header!` in src/message/header/textual.rs) -/
+def textHeaderName (sel : String) : Option String :=
+  match sel with
+  | "-" | "subject" => some "Subject"
+  | "comments" => some "Comments"
+  | "keywords" => some "Keywords"
+  | "in-reply-to" => some "In-Reply-To"
+  | "references" => some "References"
+  | "message-id" => some "Message-ID"
+  | "user-agent" => some "User-Agent"
+  | "content-id" => some "Content-ID"
+  | "content-location" => some "Content-Location"
+  | _ => none
+
 def typedOp : List String → String
   | [kind, a, b, block, same] =>
     if block == "PANIC" then propfail "panic" else
@@ -154,9 +168,15 @@ def typedOp : List String → String
     | none => "BADLINE"
     | some blk =>
       if same != "same" then propfail s!"typed-header-{kind}-reads-back-{same}" else
+      if kind == "text" then
+        -- a text header is `HeaderValue::new(name, text)`: the field oracle, the RFC 2047 reader and the encoder model of C02 / C12
+        match textHeaderName b with
+        | some nm => C02.hvalOp true [toHex (str nm), a, "ok", block]
+        | none => "BADLINE"
+      else
       match HeaderReader.split (blk ++ str "X-End: 1\r\n\r\nbody") with
       | some ([(_, v), _], _) =>
-        if !HeaderReader.linesOk (kind == "ctype") 998 blk then propfail "header-line-malformed" else
+        if !HeaderReader.linesOk false 998 blk then propfail "header-line-malformed" else
         if kind == "cdisp" && !HeaderReader.longLinesAreSingleTokens blk then propfail "line-over-78-that-could-have-been-folded" else
         if kind == "cdisp" && a != "inline0" then
           match ofHex b with
